@@ -8,6 +8,7 @@ nostr_relay.auth is a symbolic clock; `storage.get_auth_roles` is a stub.
 import logging
 from typing import List
 
+import aionostr.event as AE
 from nostr_relay import auth
 from nostr_relay.errors import AuthenticationError
 from vk.ob import obligation, pick, PARAM, THOROUGH
@@ -25,16 +26,75 @@ CONF = CONFIGS[PARAM % 4]
 ALLOWED = [URL] if CONF is None or isinstance(CONF, str) else list(CONF)
 
 
-class FakeEvent:
-    def __init__(self, ok, kind, created_at, tags, pubkey="ab" * 32):
-        self._ok = ok
-        self.kind = kind
-        self.created_at = created_at
-        self.tags = tags
-        self.pubkey = pubkey
+PK, SIG = "ab" * 32, "cd" * 64
+H_SIGNED = "11" * 32   # hash of the serialization the signer really signed
+H_OTHER = "22" * 32    # hash of any other serialization
 
-    def verify(self):
-        return self._ok
+
+class _Blob:
+    """stands for the canonical serialization of `data` without rendering it as text (rendering a symbolic
+    int forks per digit): equal iff the serialized values are equal"""
+
+    def __init__(self, data):
+        self.data = data
+
+    def encode(self, *a):
+        return self
+
+    def __eq__(self, other):
+        return isinstance(other, _Blob) and self.data == other.data
+
+    def __hash__(self):
+        return 0
+
+
+class Crypto:
+    """oracle for aionostr.event: sha256 maps the FIRST serialization it sees (or, with `signed`, exactly
+    that serialization) to H_SIGNED and everything else to H_OTHER; the signature verifies only for H_SIGNED
+    and only when `ok`."""
+
+    def __init__(self, ok=True):
+        self.ok = ok
+        self.signed = None
+        self.n = 0
+
+    def install(self):
+        AE.PublicKey = self._pk
+        AE.sha256 = self._sha
+        AE.dumps = self._dumps
+
+    def _dumps(self, data):
+        return _Blob(data)
+
+    def _sha(self, blob):
+        if self.signed is None:
+            self.signed = blob
+        hx = H_SIGNED if blob == self.signed else H_OTHER
+
+        class _H:
+            def hexdigest(self_):
+                return hx
+
+            def digest(self_):
+                return bytes.fromhex(hx)
+
+        return _H()
+
+    def _pk(self, raw):
+        crypto = self
+
+        class _K:
+            def verify(self_, sig, msg):
+                crypto.n += 1
+                return crypto.ok and msg == bytes.fromhex(H_SIGNED) and sig == bytes.fromhex(SIG) and raw == bytes.fromhex(PK)
+
+        return _K()
+
+
+def FakeEvent(ok, kind, created_at, tags, pubkey=PK):
+    """a REAL aionostr Event (every field present) whose crypto is the oracle above"""
+    Crypto(ok).install()
+    return AE.Event(pubkey=pubkey, kind=kind, created_at=created_at, tags=tags, content="", id=H_SIGNED, sig=SIG)
 
 
 class Storage:
@@ -62,7 +122,7 @@ def _authn():
 def ob_check_auth_event(ok: bool, kind: int, created_at: int, now: int, sels: List[int]) -> str:
     """
     pre: len(sels) <= NT and all(0 <= s < 13 for s in sels)
-    pre: 0 <= kind < 100000 and 0 <= created_at < 4294967296 and 0 <= now < 4294967296
+    pre: 0 <= kind < 100000 and 1 <= created_at < 4294967296 and 0 <= now < 4294967296
     post: _.startswith("ok")
     """
     logging.disable(logging.CRITICAL)
@@ -95,7 +155,7 @@ def ob_check_auth_event(ok: bool, kind: int, created_at: int, now: int, sels: Li
             bounds="the canonical valid answer (kind 22242, fresh, [relay, URL], [challenge, this]) with symbolic clock skew")
 def ob_valid_answer_accepted(created_at: int, now: int) -> str:
     """
-    pre: 0 <= created_at < 4294967296 and 0 <= now < 4294967296
+    pre: 1 <= created_at < 4294967296 and 0 <= now < 4294967296
     pre: -600 < now - created_at < 600
     post: _.startswith("ok")
     """
@@ -129,15 +189,9 @@ def ob_authenticate(sel: int, swap: bool) -> str:
     logging.disable(logging.CRITICAL)
     a = auth.Authenticator(Storage(), {"enabled": True, "relay_urls": [URL]})
     auth.time = lambda: 1000
-    made = []
-
-    def fake_event(**kw):
-        ev = FakeEvent(True, kw.get("kind"), kw.get("created_at"), kw.get("tags"), kw.get("pubkey"))
-        made.append(ev)
-        return ev
-
-    auth.Event = fake_event
-    good = {"kind": 22242, "created_at": 1000, "pubkey": "cd" * 32, "tags": [["relay", URL], ["challenge", CH]]}
+    Crypto(True).install()
+    good = {"kind": 22242, "created_at": 1000, "pubkey": PK, "tags": [["relay", URL], ["challenge", CH]], "id": H_SIGNED,
+            "sig": SIG, "content": ""}
     other = dict(good, tags=[["relay", URL], ["challenge", CH_OTHER]])
     payload = pick((good, other, [good], "x", None), sel)
     challenge = CH_OTHER if swap else CH
@@ -150,6 +204,77 @@ def ob_authenticate(sel: int, swap: bool) -> str:
     expect_ok = (sel == 0 and not swap) or (sel == 1 and swap)
     if not expect_ok:
         return "token %r issued for payload %d under challenge %s" % (tok, sel, challenge)
-    if tok.get("pubkey") != "cd" * 32:
+    if tok.get("pubkey") != PK:
         return "token names %r" % (tok.get("pubkey"),)
+    return "ok"
+
+
+@obligation(funcs=["auth.Authenticator.check_auth_event", "auth.Authenticator.authenticate"], timeout=(120, 600),
+            bounds="two answers on one Authenticator instance: first the genuine answer of the victim (accepted), then an event "
+                   "re-using its id/pubkey/sig with the challenge of another connection and/or a fresh created_at (symbolic "
+                   "choices; the signature oracle is valid only for the hash of the first serialization)")
+def ob_replay_with_changed_fields(swap_challenge: bool, new_ts: int, same_relay: bool) -> str:
+    """
+    pre: 1 <= new_ts < 4294967296
+    post: _.startswith("ok")
+    """
+    logging.disable(logging.CRITICAL)
+    a = auth.Authenticator(Storage(), {"enabled": True, "relay_urls": [URL]})
+    auth.time = lambda: 1000
+    crypto = Crypto(True)
+    crypto.install()
+    first = AE.Event(pubkey=PK, kind=22242, created_at=1000, tags=[["relay", URL], ["challenge", CH]], content="", id=H_SIGNED, sig=SIG)
+    try:
+        a.check_auth_event(first, CH)
+    except AuthenticationError as e:
+        return "genuine answer refused: %s" % e
+    auth.time = lambda: new_ts
+    tags = [["relay", URL if same_relay else "ws://evil"], ["challenge", CH_OTHER if swap_challenge else CH]]
+    second = AE.Event(pubkey=PK, kind=22242, created_at=new_ts, tags=tags, content="", id=H_SIGNED, sig=SIG)
+    changed = swap_challenge or new_ts != 1000 or not same_relay
+    try:
+        a.check_auth_event(second, CH_OTHER if swap_challenge else CH)
+    except AuthenticationError:
+        return "ok" if changed else "verbatim replay on the same connection refused"
+    if changed:
+        return "an answer whose signed content was altered (challenge swapped=%r, created_at=%d) was accepted" % (swap_challenge, new_ts)
+    return "ok-verbatim"
+
+
+@obligation(funcs=["auth.Authenticator.get_challenge"], timeout=(60, 300),
+            bounds="<=3 connections from the same or different addresses (symbolic): every challenge is a fresh draw of >=16 "
+                   "random bytes from secrets (the generator is a counting stub: unpredictability itself is not a solver question)")
+def ob_challenge_fresh(n: int, same_addr: bool) -> str:
+    """
+    pre: 1 <= n <= 3
+    post: _.startswith("ok")
+    """
+    logging.disable(logging.CRITICAL)
+    a = auth.Authenticator(Storage(), {"enabled": True, "relay_urls": [URL]})
+    draws = []
+
+    class _Secrets:
+        @staticmethod
+        def token_hex(nbytes=32):
+            draws.append(nbytes)
+            return "%032x" % len(draws)
+
+        @staticmethod
+        def token_bytes(nbytes=32):
+            draws.append(nbytes)
+            return bytes([len(draws)]) * nbytes
+
+        @staticmethod
+        def token_urlsafe(nbytes=32):
+            draws.append(nbytes)
+            return "u%d" % len(draws)
+
+    auth.secrets = _Secrets
+    got = [a.get_challenge("10.0.0.1" if same_addr else "10.0.0.%d" % i) for i in range(n)]
+    if len(set(got)) != n:
+        return "connections were given the same challenge: %r" % (got,)
+    if any(len(c) < 32 for c in got):
+        return "challenge shorter than 128 bits: %r" % (got,)
+    if draws and (len(draws) < n or any(d < 16 for d in draws)):
+        return "challenges are not fresh 128-bit draws: %r" % (draws,)
     return "ok"
